@@ -14,7 +14,7 @@ for d in "$HERE"/seeded/*/; do id=$(basename $d); grep -q '"obsolete"' "$d/meta.
 python3 - "$HERE/known_findings.json" <<'PY'
 import json,sys
 for f in json.load(open(sys.argv[1]))["findings"]:
-    if f.get("status")=="fixed" and f.get("commit"):
+    if f.get("status")=="fixed" and f.get("commit") and not f.get("no_revert"):
         print("fix-%s commit:%s -R" % (f["commit"], f["commit"]))
 PY
 } | sort -u | xargs -P "$J" -L 1 bash -c 'one "$0" "$1" "$2"'
